@@ -173,6 +173,9 @@ func runC01(p *core.Prog, r *core.Report) {
 			bad = append(bad, fmt.Sprintf("byte %#02x: %s %s", b, o.Kind, o.Why))
 			continue
 		}
+		if w := cl.bookkeeping(o, 1); w != "" {
+			bad = append(bad, fmt.Sprintf("byte %#02x: %s", b, w))
+		}
 		if len(o.Emitted) == 0 && !o.Raw {
 			raw++
 			if jsonStringUnsafe(byte(b)) {
@@ -185,6 +188,10 @@ func runC01(p *core.Prog, r *core.Report) {
 		if ok, w := legalJSONEscape(o.Emitted, rune(b)); !ok {
 			bad = append(bad, fmt.Sprintf("byte %#02x: %s", b, w))
 		}
+	}
+	if cl.startV != nil {
+		w := cl.finalFlush()
+		r.Check(w == "", "C01-R3", "the raw run pending at the end of the string is appended", p.FuncPos(san), "every return passes append(buf, str[start:]...) after the loop; per character: raw leaves start alone, an escape flushes str[start:i] first and restarts the run just past the character", w)
 	}
 	r.Check(len(bad) == 0, "C01-R3", "escape decision over all 128 ASCII bytes", p.FuncPos(san), fmt.Sprintf("%d bytes passed raw (all legal inside a JSON string), %d replaced by a legal escape denoting them", raw, esc), strings.Join(bad, "; "))
 	okTab := true
@@ -217,11 +224,16 @@ func runC01(p *core.Prog, r *core.Report) {
 				badR = append(badR, fmt.Sprintf("U+%04X: %s", rr, w))
 			}
 		}
+		if w := cl.bookkeeping(o, sz); w != "" && len(badR) < 5 {
+			badR = append(badR, fmt.Sprintf("U+%04X: %s", rr, w))
+		}
 	}
 	for _, fb := range []byte{0x80, 0xbf, 0xc0, 0xff} {
 		o := cl.evalRune(p, tables, utf8.RuneError, 1, fb)
 		if ok, w := legalJSONEscape(o.Emitted, utf8.RuneError); o.Kind != "advance" || !ok {
 			badR = append(badR, fmt.Sprintf("invalid byte %#02x: %s %s", fb, o.Kind, w))
+		} else if w := cl.bookkeeping(o, 1); w != "" {
+			badR = append(badR, fmt.Sprintf("invalid byte %#02x: %s", fb, w))
 		}
 	}
 	r.Check(len(badR) == 0, "C01-R3", "escape decision over every Unicode scalar value and invalid bytes", p.FuncPos(san), fmt.Sprintf("%d scalar values evaluated: raw or one legal \\uXXXX escape denoting them; invalid bytes become \\ufffd", nR), strings.Join(badR, "; "))
